@@ -37,6 +37,10 @@ enum Op {
     BF,
     BL,
     FK,
+    /// a BlockFilters batch of peer 0 (which stays on branch A) starting right after the filtered number AT THE
+    /// MOMENT IT IS DELIVERED (nobody asked for it; built lazily, so that it fits the state a suspended fork
+    /// switch has left)
+    BX,
     /// reader: get_cells_capacity (only as the paused operation, paused at its read points)
     RD,
 }
@@ -48,6 +52,7 @@ impl Op {
             Op::BF => "Filters",
             Op::BL => "Block",
             Op::FK => "Fork",
+            Op::BX => "FiltersNow",
             Op::RD => "Read",
         }
     }
@@ -71,10 +76,72 @@ struct Setup {
     interval: u64,
     ss: (String, Vec<(usize, bool, u64)>),
     buf: SharedBuf,
+    /// the peer whose proof of branch B is outstanding
+    fk: usize,
+    /// the tip of branch A (the chain peer 0 served before anybody reorganised)
+    old_tip: usize,
+}
+
+thread_local! {
+    /// race=1: the single-peer history of `setup_race`
+    static RACE: Cell<bool> = Cell::new(false);
+}
+
+fn setup(seed: u64, name: &str) -> Setup {
+    if RACE.with(|r| r.get()) { setup_race(seed, name) } else { setup_pair(seed, name) }
+}
+
+/// One peer, quorum 1, no sampling: the peer serves branch A until the filters are synced some way, then it
+/// reorganises to the heavier branch B and announces it; the client has asked for the proof.  Operations: the
+/// proof (fork switch) and a BlockFilters batch of branch A, as the peer had it before it reorganised, starting
+/// right after the filtered number at the moment it is delivered.
+fn setup_race(seed: u64, name: &str) -> Setup {
+    let mut rng = StdRng::seed_from_u64(seed);
+    let rng = &mut rng;
+    let last_n = 20u64;
+    let interval = rng.gen_range(5..=6);
+    let a_len = rng.gen_range(10..=18usize);
+    let depth = rng.gen_range(1..=4usize).min(a_len - 3);
+    let p = ChainParams { pow: "dummy".to_owned(), epoch_len: (3, 8), vary_difficulty: false };
+    let scripts = gen::default_scripts();
+    let mut chain = SimChain::new("dummy", &scripts);
+    let mut tg = TxGen::new(scripts.len(), 3);
+    let a_tip = gen::extend_with_txs(&mut chain, 0, a_len, &p, rng, &mut tg);
+    let fork_at = chain.ancestor_at(a_tip, (a_len - depth) as u64).unwrap();
+    let b_tip = gen::extend_with_txs(&mut chain, fork_at, depth + rng.gen_range(1..=3), &p, rng, &mut tg);
+    let cfg = Config { last_n, max_outbound: 1, interval, blocks_in_transit: 8, ..Default::default() };
+    let buf = SharedBuf(Arc::new(Mutex::new(Vec::new())));
+    let mut sim: Sim = new_sim(chain, cfg, 1, Box::new(buf.clone()), name, vec!["peersync", "filter"]);
+    let mut env = Env::new(&sim, &[(a_tip, a_tip)]);
+    env.peers[0].server.filters_batch = rng.gen_range(1..=3);
+    env.peers[0].server.hashes_batch = rng.gen_range(4..=8);
+    env.peers[0].server.cp_batch = rng.gen_range(2..=6);
+    sim.reset(json!({"mode": "concurrent-race"}));
+    let nscripts = sim.chain.scripts.len();
+    let list: Vec<(usize, bool, u64)> = (0..nscripts).map(|s| (s, false, 0)).collect();
+    env.set_scripts(&mut sim, "all", &list);
+    // honest rounds on branch A; stop when the filtered number has reached the target (somewhere around the fork point)
+    let fork_num = (a_len - depth) as u64;
+    let target = fork_num.saturating_sub(rng.gen_range(0..=2)).max(1) + rng.gen_range(0..=depth as u64);
+    for _ in 0..40 {
+        let minf = sim.client().storage.get_min_filtered_block_number();
+        if minf >= target {
+            break;
+        }
+        crate::verif::drivers::filtersync::pump_opt(&mut sim, &mut env, rng, interval, false);
+    }
+    // the peer reorganises and announces B; the client asks for the proof
+    env.peers[0].leaf = b_tip;
+    env.peers[0].server.tip = b_tip;
+    sim.inbox.clear();
+    env.send_last_state(&mut sim, 0);
+    env.refresh(&mut sim);
+    let ss_list = vec![(0usize, false, 0u64)];
+    Setup { sim, env, interval, ss: ("partial".to_string(), ss_list), buf, fk: 0, old_tip: a_tip }
 }
 
 /// The seeded history that ends with the four operations ready.
-fn setup(seed: u64, name: &str) -> Setup {
+fn setup_pair(seed: u64, name: &str) -> Setup {
     let mut rng = StdRng::seed_from_u64(seed);
     let rng = &mut rng;
     // last-N 20 covers the whole chain: no sampling, hence no randomness of the client's sampler in the history
@@ -90,11 +157,15 @@ fn setup(seed: u64, name: &str) -> Setup {
     let a_tip = gen::extend_with_txs(&mut chain, 0, a_len, &p, rng, &mut tg);
     let fork_at = chain.ancestor_at(a_tip, (a_len - depth) as u64).unwrap();
     let b_tip = gen::extend_with_txs(&mut chain, fork_at, depth + rng.gen_range(1..=3), &p, rng, &mut tg);
-    let cfg = Config { last_n, max_outbound: 2, interval, blocks_in_transit: 8, ..Default::default() };
+    // quorum 1 (capacity 2) or 2 (capacity 3: both peers have to agree on filter hashes and check points)
+    let max_outbound = 2 + (seed % 2) as u32;
+    let cfg = Config { last_n, max_outbound, interval, blocks_in_transit: 8, ..Default::default() };
     let buf = SharedBuf(Arc::new(Mutex::new(Vec::new())));
     let mut sim: Sim = new_sim(chain, cfg, 2, Box::new(buf.clone()), name, vec!["peersync", "filter"]);
     // peer 0 serves A's tip, peer 1 lags a little on A (it will announce B later)
-    let lag = sim.chain.ancestor_at(a_tip, (a_len - depth) as u64).unwrap();
+    // (or, every other pair of seeds, it is at A's tip as well: its filter hashes then reach beyond the fork point
+    //  until its proof of B is committed)
+    let lag = if (seed / 2) % 2 == 1 { a_tip } else { sim.chain.ancestor_at(a_tip, (a_len - depth) as u64).unwrap() };
     let mut env = Env::new(&sim, &[(a_tip, a_tip), (lag, a_tip)]);
     for ep in env.peers.iter_mut() {
         ep.server.filters_batch = rng.gen_range(1..=3);
@@ -207,7 +278,7 @@ fn setup(seed: u64, name: &str) -> Setup {
     if ss_list.is_empty() {
         ss_list.push((0, false, 0));
     }
-    Setup { sim, env, interval, ss: (ss_cmd, ss_list), buf }
+    Setup { sim, env, interval, ss: (ss_cmd, ss_list), buf, fk: 1, old_tip: a_tip }
 }
 
 fn available(s: &Setup) -> Vec<Op> {
@@ -218,7 +289,7 @@ fn available(s: &Setup) -> Vec<Op> {
     if s.sim.inbox.iter().any(|x| sim::as_get_blocks(x).is_some()) {
         v.push(Op::BL);
     }
-    let p1 = s.env.peers[1].idx;
+    let p1 = s.env.peers[s.fk].idx;
     if s.sim.inbox.iter().any(|x| x.peer == p1 && sim::as_get_last_state_proof(x).is_some()) {
         v.push(Op::FK);
     }
@@ -255,7 +326,15 @@ fn fire(s: &mut Setup, op: Op) {
             }
         }
         Op::FK => {
-            s.env.answer_proof(&mut s.sim, 1);
+            let fk = s.fk;
+            s.env.answer_proof(&mut s.sim, fk);
+        }
+        Op::BX => {
+            // the batch is one of branch A, whatever peer 0 serves now
+            let cur = s.env.peers[0].server.tip;
+            s.env.peers[0].server.tip = s.old_tip;
+            s.env.unsolicited_filters(&mut s.sim, 0);
+            s.env.peers[0].server.tip = cur;
         }
         Op::RD => {}
     }
@@ -271,6 +350,8 @@ fn lowest_block(msgs: Vec<packed::SyncMessage>) -> Option<packed::SyncMessage> {
 }
 
 enum Raw {
+    /// (peer, its server): the batch is built when the thread runs
+    LazyFilters(PeerIndex, HonestPeer),
     Read(usize),
     Rpc(Vec<RpcScriptStatus>, Option<SetScriptsCommand>),
     Msg(Proto, PeerIndex, P2pBytes),
@@ -282,6 +363,11 @@ fn raw(s: &mut Setup, op: Op) -> Raw {
     match op {
         // (a script that is not a prefix of another world script: the capacity is the sum over its own cells)
         Op::RD => Raw::Read(1 + s.ss.1[0].0 % 3),
+        Op::BX => {
+            let mut server = s.env.peers[0].server.clone();
+            server.tip = s.old_tip;
+            Raw::LazyFilters(s.env.peers[0].idx, server)
+        }
         Op::SS => {
             let (cmd, list) = s.ss.clone();
             let scripts: Vec<RpcScriptStatus> = list
@@ -322,9 +408,9 @@ fn raw(s: &mut Setup, op: Op) -> Raw {
             None => Raw::Nothing,
         },
         Op::FK => {
-            let p = s.env.peers[1].idx;
+            let p = s.env.peers[s.fk].idx;
             match s.sim.take_request(p, sim::as_get_last_state_proof) {
-                Some(req) => match s.env.peers[1].server.plan_last_state_proof(&s.sim.chain, &req) {
+                Some(req) => match s.env.peers[s.fk].server.plan_last_state_proof(&s.sim.chain, &req) {
                     Ok(Some(plan)) => {
                         let msg = packed::LightClientMessage::new_builder().set(HonestPeer::encode_plan(&s.sim.chain, &plan)).build();
                         Raw::Msg(Proto::Lc, p, msg.as_bytes())
@@ -338,6 +424,8 @@ fn raw(s: &mut Setup, op: Op) -> Raw {
 }
 
 static DEADLOCK_FILE: Mutex<Option<String>> = Mutex::new(None);
+/// the lazily built operation had nothing to deliver (no handler was called)
+static B_NOOP: std::sync::atomic::AtomicBool = std::sync::atomic::AtomicBool::new(false);
 
 thread_local! {
     static ROLE: Cell<u8> = Cell::new(0);
@@ -384,6 +472,10 @@ fn run_concurrent(s: &mut Setup, a: Raw, b: Raw, k: usize, rd_out: &Arc<Mutex<Op
             }
         })));
     }
+    struct ChainPtr(*const crate::verif::world::SimChain);
+    unsafe impl Send for ChainPtr {}
+    let chain_ptr = ChainPtr(&s.sim.chain);
+    let storage_for_lazy = s.sim.client().storage.clone();
     let cl = s.sim.client_mut();
     let rpc_a = cl.rpc_filter();
     let rpc_b = cl.rpc_filter();
@@ -426,6 +518,24 @@ fn run_concurrent(s: &mut Setup, a: Raw, b: Raw, k: usize, rd_out: &Arc<Mutex<Op
                 let nc = Arc::clone(&nc_filter);
                 Box::new(move || {
                     let _ = guard(|| block_on(h.received(nc, p, data)));
+                })
+            }
+            Raw::LazyFilters(p, server) => {
+                let h = filter.take().unwrap();
+                let nc = Arc::clone(&nc_filter);
+                let storage = storage_for_lazy.clone();
+                let cp = ChainPtr(chain_ptr.0);
+                Box::new(move || {
+                    let cp = cp;
+                    let chain = unsafe { &*cp.0 };
+                    let start = storage.get_min_filtered_block_number() + 1;
+                    drop(storage);
+                    if let Some(m) = server.block_filters(chain, start) {
+                        let data = m.as_bytes();
+                        let _ = guard(|| block_on(h.received(nc, p, data)));
+                    } else {
+                        B_NOOP.store(true, std::sync::atomic::Ordering::SeqCst);
+                    }
                 })
             }
             Raw::Msg(Proto::Sync, p, data) => {
@@ -556,6 +666,8 @@ pub fn run(kv: &HashMap<String, String>) -> i32 {
     *DEADLOCK_FILE.lock().unwrap() = Some(format!("{}.deadlock", path));
     let mut out = BufWriter::new(File::create(&path).expect("open out"));
     let mut rng = StdRng::seed_from_u64(seed);
+    let race = arg_u64(kv, "race", 0) == 1;
+    RACE.with(|r| r.set(race));
     let (mut experiments, mut discarded, mut lines, mut blocked_n, mut free_n) = (0u64, 0u64, 0u64, 0u64, 0u64);
     for sc in 0..n {
         let s_seed = seed.wrapping_mul(1_000_003).wrapping_add(sc as u64);
@@ -572,7 +684,10 @@ pub fn run(kv: &HashMap<String, String>) -> i32 {
             continue;
         }
         for _pair in 0..arg_u64(kv, "pairs", 3) {
-            let (a, b) = if rng.gen_bool(0.2) {
+            let (a, b) = if ops.contains(&Op::FK) && (race || rng.gen_bool(0.3)) {
+                // the fork switch suspended somewhere, a batch that fits the state it has left so far
+                (Op::FK, Op::BX)
+            } else if rng.gen_bool(0.2) {
                 // a reader paused after its snapshot while a writer runs
                 let writers: Vec<Op> = ops.iter().cloned().filter(|o| *o != Op::SS).collect();
                 if writers.is_empty() {
@@ -644,7 +759,11 @@ pub fn run(kv: &HashMap<String, String>) -> i32 {
                 let ra = raw(&mut s3, a);
                 let rb = raw(&mut s3, b);
                 let rd_out: Arc<Mutex<Option<Value>>> = Arc::new(Mutex::new(None));
+                // (the history offered the operation when it was probed; this run of it -- the client makes random
+                //  choices -- may have nothing to deliver)
+                B_NOOP.store(matches!(rb, Raw::Nothing), std::sync::atomic::Ordering::SeqCst);
                 let (paused, blocked, deadlock, label) = run_concurrent(&mut s3, ra, rb, k, &rd_out);
+                let b_noop = B_NOOP.load(std::sync::atomic::Ordering::SeqCst);
                 if blocked {
                     blocked_n += 1;
                 } else if paused {
@@ -652,7 +771,7 @@ pub fn run(kv: &HashMap<String, String>) -> i32 {
                 }
                 let ev = if deadlock { "Deadlock" } else { "Concurrent" };
                 let rd = rd_out.lock().unwrap().clone().unwrap_or(json!({"sk": 0, "cap": 0, "tip": 0, "tipNum": 0}));
-                s3.sim.step(ev, json!({"exp": exp, "a": a.name(), "b": b.name(), "k": k, "paused": paused, "blocked": blocked, "label": label, "rd": rd}), |_| Ok(()));
+                s3.sim.step(ev, json!({"exp": exp, "a": a.name(), "b": b.name(), "k": k, "paused": paused, "blocked": blocked, "bNoop": b_noop, "label": label, "rd": rd}), |_| Ok(()));
                 let t3 = take_buf(&s3);
                 lines += t3.iter().filter(|c| **c == b'\n').count() as u64;
                 out.write_all(&t3).unwrap();
